@@ -57,6 +57,9 @@ fn matmul(tier: Tier) -> Vec<Case> {
         pairs.push((vec![k], vec![2, k, n], "vector x batched rhs"));
         pairs.push((vec![2, 3, m, k], vec![2, 3, k, n], "batched x batched"));
     }
+    pairs.push((vec![3], vec![3, 0], "vector x matrix with zero extent"));
+    pairs.push((vec![0, 3], vec![3], "matrix with zero extent x vector"));
+    pairs.push((vec![0], vec![0, 2], "zero inner extent"));
     pairs.push((vec![0, 3], vec![3, 2], "zero extent"));
     pairs.push((vec![2, 0], vec![0, 3], "zero inner extent"));
     pairs.push((vec![2, 3], vec![3, 0], "zero extent"));
@@ -247,25 +250,12 @@ fn conv_cfgs(tier: Tier, transpose: bool) -> Vec<ConvCfg> {
 }
 
 fn conv_class(c: &ConvCfg) -> String {
+    if !c.kernel_shape {
+        return "kernel_shape absent".to_string();
+    }
     format!(
-        "{}-D; group {}; strides {}; dilations {}; {}",
+        "{}-D; {}",
         c.x.len() - 2,
-        match c.group {
-            None => "absent".to_string(),
-            Some(1) => "1".into(),
-            Some(g) if g as usize == c.x[1] => "depthwise".into(),
-            _ => "grouped".into(),
-        },
-        match &c.strides {
-            None => "absent",
-            Some(s) if s.iter().all(|v| *v == 1) => "1",
-            _ => ">1",
-        },
-        match &c.dilations {
-            None => "absent",
-            Some(s) if s.iter().all(|v| *v == 1) => "1",
-            _ => ">1",
-        },
         match (&c.pads, c.auto_pad) {
             (Some(p), _) if p.iter().all(|v| *v == 0) => "pads zero".to_string(),
             (Some(p), _) if { let n = p.len() / 2; (0..n).all(|i| p[i] == p[i + n]) } => "pads symmetric".into(),
@@ -311,11 +301,7 @@ fn conv(op: &'static str, tier: Tier) -> Vec<Case> {
         let w = fill_table(Dt::F32, &c.w, &[1.0, -1.0, 2.0, 0.5, -0.5, 0.0, 1.5], 1, 2);
         let m = c.w[0];
         let extra = if c.bias { vec![Some(fill_table(Dt::F32, &[m], &[0.5, -2.0, 1.0, 3.0], 1, 0))] } else { vec![] };
-        let mut case = conv_case(op, &c, x, w, extra);
-        if !c.kernel_shape {
-            case.class.push_str("; kernel_shape absent");
-        }
-        out.push(case);
+        out.push(conv_case(op, &c, x, w, extra));
     }
     // f64 spot grid
     for c in conv_cfgs(Tier::Quick, false).into_iter().step_by(37) {
@@ -404,12 +390,7 @@ fn pool(op: &'static str, tier: Tier) -> Vec<Case> {
                                     continue;
                                 }
                                 let cls = format!(
-                                    "1-D; strides {}; {}; ceil_mode {}; {} {}",
-                                    match s {
-                                        None => "absent",
-                                        Some(1) => "1",
-                                        _ => ">1",
-                                    },
+                                    "1-D; {}; ceil_mode {}{}",
                                     match (&pads, ap) {
                                         (Some(p), _) if p.iter().all(|v| *v == 0) => "pads zero".to_string(),
                                         (Some(p), _) if p[0] == p[1] => "pads symmetric".into(),
@@ -418,8 +399,7 @@ fn pool(op: &'static str, tier: Tier) -> Vec<Case> {
                                         (None, Some(a)) => format!("auto_pad {a}"),
                                     },
                                     opt_name(ceil),
-                                    if is_max { "dilations" } else { "count_include_pad" },
-                                    opt_name(e)
+                                    if is_max { String::new() } else { format!("; count_include_pad {}", opt_name(e)) }
                                 );
                                 let mut c = Case::new(op, cls, vec![Some(x.clone())]).attr_is("kernel_shape", &[k as i64]);
                                 if let Some(s) = s {
@@ -462,12 +442,7 @@ fn pool(op: &'static str, tier: Tier) -> Vec<Case> {
                                 continue;
                             }
                             let cls = format!(
-                                "2-D; strides {}; {}; ceil_mode {}{}",
-                                match &s {
-                                    None => "absent",
-                                    Some(v) if v.iter().all(|x| *x == 1) => "1",
-                                    _ => ">1",
-                                },
+                                "2-D; {}; ceil_mode {}{}",
                                 match (&pads, ap) {
                                     (Some(p), _) if p[0] == p[2] && p[1] == p[3] => "pads symmetric".to_string(),
                                     (Some(_), _) => "pads asymmetric".into(),
@@ -661,13 +636,13 @@ fn resize(tier: Tier) -> Vec<Case> {
                         let nm_list: Vec<Option<&str>> = if mode == Some("linear") { vec![None] } else { nms.clone() };
                         for nm in nm_list {
                             for use_sizes in [false, true] {
+                                let one = oh == 1.0 || ow == 1.0;
                                 let cls = format!(
-                                    "mode {}; coordinate_transformation_mode {}; nearest_mode {}; {}; {}",
+                                    "mode {}; coordinate_transformation_mode {}{}{}",
                                     mode.unwrap_or("absent"),
                                     ctm.unwrap_or("absent"),
-                                    nm.unwrap_or("absent"),
-                                    if use_sizes { "sizes" } else { "scales" },
-                                    if *sh < 1.0 || *sw < 1.0 { "downsample" } else if *sh == 1.0 && *sw == 1.0 { "identity" } else { "upsample" }
+                                    if mode == Some("linear") { String::new() } else { format!("; nearest_mode {}", nm.unwrap_or("absent")) },
+                                    if one { "; output extent 1" } else { "" }
                                 );
                                 let ins = if use_sizes {
                                     vec![Some(x.clone()), None, None, Some(i64s(&[ds[0] as i64, ds[1] as i64, oh as i64, ow as i64]))]
@@ -675,6 +650,11 @@ fn resize(tier: Tier) -> Vec<Case> {
                                     vec![Some(x.clone()), None, Some(RT::vec(Dt::F32, &[1.0, 1.0, *sh, *sw]))]
                                 };
                                 let mut c = Case::new("Resize", cls, ins).opset(13);
+                                if mode == Some("linear") {
+                                    // interpolation weights such as 1/3 are not dyadic; source
+                                    // coordinates and weights are formed in f32
+                                    c = c.tol(Tol { abs: 2e-5, rel: 2e-5 });
+                                }
                                 if let Some(m) = mode {
                                     c = c.attr_s("mode", m);
                                 }
@@ -718,7 +698,7 @@ fn quantize(_tier: Tier) -> Vec<Case> {
                 if let Some(z) = zp {
                     ins.push(Some(z));
                 }
-                out.push(Case::new("QuantizeLinear", format!("per-tensor; zero point {}", zdt.map(|d| d.name()).unwrap_or("absent")), ins).vclass("f32"));
+                out.push(Case::new("QuantizeLinear", "per-tensor", ins).vclass(format!("zero point {}", zdt.map(|d| d.name()).unwrap_or("absent"))));
             }
             // per axis
             let mut axes: Vec<Option<i64>> = vec![None];
@@ -738,15 +718,14 @@ fn quantize(_tier: Tier) -> Vec<Case> {
                     ins.push(Some(fill_table(d, &[n], &[1.0, 0.0, 5.0], 1, 0)));
                 }
                 let cls = format!(
-                    "per-axis; {}; zero point {}",
+                    "per-axis; {}",
                     match axis {
                         None => "axis default",
                         Some(a) if a < 0 => "negative axis",
                         _ => "axis",
-                    },
-                    zdt.map(|d| d.name()).unwrap_or("absent")
+                    }
                 );
-                let mut c = Case::new("QuantizeLinear", cls, ins).vclass("f32").opset(13);
+                let mut c = Case::new("QuantizeLinear", cls, ins).vclass(format!("zero point {}", zdt.map(|d| d.name()).unwrap_or("absent"))).opset(13);
                 if let Some(a) = axis {
                     c = c.attr_i("axis", a);
                 }
